@@ -154,26 +154,28 @@ Fixpoint assoc_nat {A : Type} (k : nat) (l : list (nat * A)) : option A :=
 
 (* pack_bits_block(values, bytes, bits) with bytes = a zeroed block of [bits] bytes: the three
    asserts, the dispatch on [bits] (translated table), `unreachable!()` otherwise *)
-Definition pack_bits_block (values : list N) (bits : N) : outcome (list N) :=
+Definition pack_bits_block_tbl (tbl : list (nat * list exp)) (values : list N) (bits : N) : outcome (list N) :=
   if negb (N.of_nat (length values) =? BLOCK_WIDTH) then Stuck
   else if negb ((1 <=? bits) && (bits <=? 63)) then Stuck
   else if negb (bits <? bits * BLOCK_WIDTH) then Stuck
-  else match assoc_nat (N.to_nat bits) GenBitPack.pack_tbl with
+  else match assoc_nat (N.to_nat bits) tbl with
        | None => Stuck
        | Some es =>
            if N.of_nat (length es) <=? bits
            then Ok (map (den (env values)) es ++ repeat 0 (N.to_nat bits - length es))
            else Stuck                                     (* bytes[i] with i >= bytes.len() *)
        end.
+Definition pack_bits_block : list N -> N -> outcome (list N) := pack_bits_block_tbl GenBitPack.pack_tbl.
 
 (* unpack_bits_block(values, bytes, bits) with bytes = a block of [bits] bytes *)
-Definition unpack_bits_block (bytes : list N) (bits : N) : outcome (list N) :=
+Definition unpack_bits_block_tbl (tbl : list (nat * list exp)) (bytes : list N) (bits : N) : outcome (list N) :=
   if negb ((1 <=? bits) && (bits <=? 63)) then Stuck
   else if negb (N.of_nat (length bytes) <? bits * BLOCK_WIDTH) then Stuck
-  else match assoc_nat (N.to_nat bits) GenBitPack.unpack_tbl with
+  else match assoc_nat (N.to_nat bits) tbl with
        | None => Stuck
        | Some es => if N.of_nat (length es) =? BLOCK_WIDTH then Ok (map (den (env bytes)) es) else Stuck
        end.
+Definition unpack_bits_block : list N -> N -> outcome (list N) := unpack_bits_block_tbl GenBitPack.unpack_tbl.
 
 (* ====================== CompactThetaSketch: compressed writer ====================== *)
 
